@@ -3,6 +3,8 @@ CONSTANTS
   MaxN = 3
   MaxC = 3
   MaxT = 9
+  MinN = 1
+  MinC = 1
   MaxSteps = 3
 INIT Init
 NEXT Next
